@@ -1352,3 +1352,134 @@ func c07r12(rc *core.RC) {
 		rc.Unknown("decoder.interfaceDecoder/worker-calls", token.NoPos, "found %d calls of the empty-interface workers (confirmed: 4)", n)
 	}
 }
+
+// ---- C07.R13 nothing a cached decoder owns is stored into a destination ----
+
+// A compiled decoder is cached per type and shared by every call. What Decode/DecodeStream store into the destination
+// through p has to be made in the call (unsafe_New, makemap, make) or taken from the destination itself. A reference
+// kept in a field of the decoder (a prepared empty map, a slice header, a pointer) and stored into the destination is
+// shared by all destinations that ever received it: the next decode into one of them (the map decoder reuses an
+// existing map) changes all the others, values that were never handed to that call. Obligation: no store through the
+// destination pointer of a Decode/DecodeStream method takes its value (through locals) from a field of the receiver
+// whose type is a pointer, map, slice, chan or unsafe.Pointer. (Copying a value out of a field with typedmemmove is a
+// copy and is C11.R6's business.)
+func c07r13(rc *core.RC) {
+	p := rc.P
+	pk := p.Pkg("decoder")
+	if pk == nil {
+		rc.Unknown("decoder", token.NoPos, "package not found")
+		return
+	}
+	info := pk.TypesInfo
+	refType := func(t types.Type) bool {
+		switch u := t.Underlying().(type) {
+		case *types.Pointer, *types.Map, *types.Slice, *types.Chan:
+			return true
+		case *types.Basic:
+			return u.Kind() == types.UnsafePointer
+		}
+		return false
+	}
+	n := 0
+	for _, fd := range p.Funcs("decoder") {
+		if fd.Body == nil || fd.Recv == nil || (fd.Name.Name != "Decode" && fd.Name.Name != "DecodeStream") {
+			continue
+		}
+		var recv types.Object
+		if len(fd.Recv.List) == 1 && len(fd.Recv.List[0].Names) == 1 {
+			recv = info.Defs[fd.Recv.List[0].Names[0]]
+		}
+		var dst types.Object
+		for _, f := range fd.Type.Params.List {
+			for _, nm := range f.Names {
+				if o := info.Defs[nm]; o != nil && o.Type().String() == "unsafe.Pointer" {
+					dst = o
+				}
+			}
+		}
+		if recv == nil || dst == nil {
+			continue
+		}
+		name := p.FuncName(fd)
+		// all definitions of each local
+		defs := map[types.Object][]ast.Expr{}
+		ast.Inspect(fd.Body, func(m ast.Node) bool {
+			if as, ok := m.(*ast.AssignStmt); ok && len(as.Lhs) == len(as.Rhs) {
+				for i, l := range as.Lhs {
+					if id, ok := core.Unparen(l).(*ast.Ident); ok {
+						if o := core.ObjOf(info, id); o != nil {
+							defs[o] = append(defs[o], as.Rhs[i])
+						}
+					}
+				}
+			}
+			return true
+		})
+		var fromField func(e ast.Expr, seen map[types.Object]bool) ast.Expr
+		fromField = func(e ast.Expr, seen map[types.Object]bool) ast.Expr {
+			e = core.Unparen(e)
+			switch x := e.(type) {
+			case *ast.SelectorExpr:
+				if core.ObjOf(info, x.X) == recv {
+					if f := core.FieldOf(info, x); f != nil && refType(f.Type()) {
+						return x
+					}
+				}
+			case *ast.Ident:
+				o := core.ObjOf(info, x)
+				if o == nil || seen[o] {
+					return nil
+				}
+				seen[o] = true
+				for _, d := range defs[o] {
+					if r := fromField(d, seen); r != nil {
+						return r
+					}
+				}
+			case *ast.CallExpr:
+				if tv, ok := info.Types[x.Fun]; ok && tv.IsType() && len(x.Args) == 1 {
+					return fromField(x.Args[0], seen)
+				}
+			}
+			return nil
+		}
+		// stores through the destination: *(*T)(p) = v, **(**T)(unsafe.Pointer(&p)) = v
+		mentionsDst := func(e ast.Expr) bool {
+			hit := false
+			ast.Inspect(e, func(m ast.Node) bool {
+				if id, ok := m.(*ast.Ident); ok && core.ObjOf(info, id) == dst {
+					hit = true
+				}
+				return true
+			})
+			return hit
+		}
+		k := 0
+		ast.Inspect(fd.Body, func(m ast.Node) bool {
+			as, ok := m.(*ast.AssignStmt)
+			if !ok || len(as.Lhs) != len(as.Rhs) {
+				return true
+			}
+			for i, l := range as.Lhs {
+				st, ok := core.Unparen(l).(*ast.StarExpr)
+				if !ok || !mentionsDst(st.X) {
+					continue
+				}
+				k++
+				n++
+				rc.Touch(name)
+				src := fromField(as.Rhs[i], map[types.Object]bool{})
+				key := fmt.Sprintf("%s/store#%d not-a-reference-the-decoder-keeps", name, k)
+				if src == nil {
+					rc.OK(key, as.Pos(), "the value stored through the destination does not come from a reference-typed field of the decoder")
+				} else {
+					rc.Bad(key, as.Pos(), "%s = %s stores %s, a reference the cached decoder keeps, into the destination: every destination that receives it shares it, and a later decode into one of them (an existing map is reused) changes the others, which are not part of that call", core.Src(p.Fset, l), core.Src(p.Fset, as.Rhs[i]), core.Src(p.Fset, src))
+				}
+			}
+			return true
+		})
+	}
+	if n < 20 {
+		rc.Unknown("decoder/destination-stores", token.NoPos, "found %d stores through the destination pointer in Decode/DecodeStream methods (confirmed: more than 20)", n)
+	}
+}
